@@ -625,9 +625,21 @@ func resolveAllProtocolChanges(newEnv, oldEnv *Environment, context *EvolutionCo
 				continue
 			}
 
-			if protocolChange := compareProtocolDefinitions(newProt, oldProt, context); protocolChange != nil {
+			protocolChange := compareProtocolDefinitions(newProt, oldProt, context)
+			previousSchema := GetProtocolSchemaString(oldProt, oldEnv.SymbolTable)
+			if protocolChange == nil && previousSchema != GetProtocolSchemaString(newProt, newEnv.SymbolTable) {
+				// No step changed, but streams of the previous version carry a different schema text
+				// (e.g. a type was renamed through an alias). Readers and writers need that text to
+				// recognize and to target the previous version, so record a change without step changes.
+				protocolChange = &ProtocolChange{
+					DefinitionPair: DefinitionPair{oldProt, newProt},
+					StepChanges:    make([]TypeChange, len(newProt.Sequence)),
+				}
+			}
+
+			if protocolChange != nil {
 				// Annotate the ProtocolChange with the Old ProtocolDefinition schema string
-				protocolChange.PreviousSchema = GetProtocolSchemaString(oldProt, oldEnv.SymbolTable)
+				protocolChange.PreviousSchema = previousSchema
 				allProtocolChanges[oldProt.GetQualifiedName()] = protocolChange
 			}
 		}
